@@ -6,21 +6,12 @@
     sweep with the bound in the statement, re-run whenever the tables are regenerated).  ArrowTheory sweeps the table
     entries; this adds grouping, merging and endorsement. *)
 Require Import SB.Model.Base SB.Model.Unicode SB.Model.Geom SB.Model.Fragment SB.Model.Merge SB.Model.Property
-  SB.Model.FragBuf SB.Model.Endorse SB.Theory.ArrowTheory SB.Theory.BoxDefs.
+  SB.Model.FragBuf SB.Model.Endorse SB.Theory.ArrowTheory SB.Theory.BoxDefs SB.Theory.ArrowDefs.
 
-Record acase := AC { adx : Z; ady : Z; alc : Z; aac : Z }.    (* direction in cells, line character, arrowhead character *)
 Definition acases : list acase :=
   [AC 1 0 45 62; AC (-1) 0 45 60; AC 0 1 124 118; AC 0 1 124 86; AC 0 (-1) 124 94;
    AC 1 1 92 118; AC 1 1 92 86; AC (-1) (-1) 92 94; AC 1 (-1) 47 94; AC (-1) 1 47 118; AC (-1) 1 47 86;
    AC 1 0 45 9654; AC (-1) 0 45 9664; AC 0 1 124 9660; AC 0 (-1) 124 9650].
-(** the run of [L] line characters stepping by the direction, then the arrowhead; placed so that no cell is negative *)
-Definition a_origin (k : acase) (L : nat) : cell :=
-  C (if adx k <? 0 then Z.of_nat L else 0) (if ady k <? 0 then Z.of_nat L else 0).
-Definition a_cell (k : acase) (L : nat) (i : Z) : cell := C (cx (a_origin k L) + i * adx k) (cy (a_origin k L) + i * ady k).
-Definition arrow_cells (k : acase) (L : nat) : list (cell * Z) :=
-  map (fun i => (a_cell k L i, alc k)) (seqZ 0 L) ++ [(a_cell k L (Z.of_nat L), aac k)].
-Definition in_cell (c : cell) (p : point) : bool :=
-  (cx c * 40 <=? px p) && (px p <=? (cx c + 1) * 40) && (cy c * 80 <=? py p) && (py p <=? (cy c + 1) * 80).
 Definition arrow_pair_ok (k : acase) (L : nat) (l : line) (p : polygon) : bool :=
   let v := P (adx k * 40) (ady k * 80) in
   let c0 := a_cell k L 0 in
